@@ -23,6 +23,11 @@
 (*                                   string fields s, other fields c        *)
 (*   [t |-> "Poly", a, exps, c]      pymbolic.polynomial.Polynomial         *)
 (*   [t |-> "Rat", a, b]             pymbolic.rational.Rational             *)
+(*                                                                         *)
+(* Round 2: a catalogue entry also says HOW the object is put together     *)
+(* (mode: tree / "shared" DAG / defaults "omit"ted; src: parsed from text; *)
+(* np: numpy constants).  None of that is structure: StructNorm erases it, *)
+(* so equal structure => equal persistent key relates the variants.        *)
 (***************************************************************************)
 EXTENDS Eval
 
